@@ -363,7 +363,7 @@ def _c03_worker(args):
         cn[k] = cn.get(k, 0) + n
 
     b3 = B3()
-    wd = os.path.join(wroot, "w%d-%s" % (lo, mode if isinstance(mode, str) else mode[0]))
+    wd = os.path.join(wroot, "w%d-%s" % (lo, mode if isinstance(mode, str) else "-".join(map(str, mode[:2]))))
     lock_orders = set()
     for idx in range(lo, hi):
         rng = SplitMix.derive(seedv, "c03", str(mode), idx)
@@ -554,7 +554,7 @@ def _c10_worker(args):
         cn[k] = cn.get(k, 0) + n
 
     b3 = B3()
-    wd = os.path.join(wroot, "w%d-%s" % (lo, mode if isinstance(mode, str) else "-".join(map(str, mode[:2]))))
+    wd = os.path.join(wroot, "w%d-%s" % (lo, mode if isinstance(mode, str) else "-".join(map(str, mode))))
     for idx in range(lo, hi):
         rng = SplitMix.derive(seedv, "c10", str(mode if isinstance(mode, str) else mode[0]), idx if isinstance(mode, str) else mode[1])
         label = {"mode": mode if isinstance(mode, str) else list(mode), "index": idx}
